@@ -664,3 +664,28 @@ def collection_sources(body, operand, depth=10):
             if expr(t, c.args[0], depth) == e or re.sub(r"^deref_mut\((.*)\)$", r"\1", expr(t, c.args[0], depth)) == e:
                 out.append(expr(t, c.args[-1], depth))
     return out or [e]
+
+
+def enclosing_conditions(fx, body, bb):
+    """Everything a block of `body` is conditional on, closures included: its own guards, and — when body is a closure handed
+    to an iterator/Option adaptor — the return expressions of the `filter`/`take_while`/`skip_while` closures earlier in the
+    receiver chain plus the guards of the adaptor call in the parent (recursively).  Lets a rule ask "is this read/effect
+    under condition X?" without caring whether the code is a loop with an `if` or a chain with a `.filter(..)`."""
+    out = list(guard_strs(body, bb))
+    cur = body
+    for _ in range(5):
+        if cur.kind != "Closure" or cur.parent is None:
+            break
+        feed = closure_feed(fx, cur)
+        if not feed:
+            break
+        par, call, recv = feed
+        out.extend(guard_strs(par, call.bb))
+        for f in par.calls_to(r"Iterator>?::(filter|take_while|skip_while)$", r"Option(<[^>]*>)?::filter$"):
+            d = expr(par, f.dest)
+            if d and d in recv:
+                for cb in closure_bodies(fx, f)[-1:]:
+                    r = expr(cb, 0)
+                    out.append(("F:" + r[4:-1]) if r.startswith("Not(") else ("T:" + r))
+        cur = par
+    return out
